@@ -35,6 +35,7 @@ def _case(draw, tier):
     c["ri"] = draw(st.booleans())
     c["max_tau"] = draw(gen.maxtau_for(g))
     c["perm"] = list(draw(st.permutations(list(range(N)))))
+    c["interval"] = draw(gen.interval_arg_for(g))
     c["indices"] = draw(indices_for(N))
     c["compiled"] = draw(st.booleans())
     c["alias_equal"] = draw(st.booleans())
@@ -56,7 +57,7 @@ def _enum(tier, shard, nshards):
                 yield dict(t0=0.0, t1=float(G), trains=trs,
                            measure=("ISI", "SPIKE", "SYNC")[idx % 3], mrts=None, ri=False,
                            max_tau=None, perm=[2, 0, 1], indices=[2, 0],
-                           compiled=bool(idx & 1))
+                           compiled=bool(idx & 1), interval=None)
 
 
 PHASES = [
@@ -176,6 +177,29 @@ def run_case(case, ctx):
                   "permutation_changes_profile", lambda: "perm=%r" % (perm,))
         ctx.check(ps.close(Vp, Fr(float(V)), tol), "permutation_changes_value",
                   lambda: "perm=%r: %r vs %r" % (perm, float(V), float(Vp)))
+
+    # the same aggregate over an averaging sub-interval
+    iv = case.get("interval")
+    if iv is not None:
+        ivt = gen.to_interval(iv)
+        Vi = ctx.call("multi_value_interval", fn["dist"], sts, interval=ivt, **kw)
+        if fn["kind"] in ("pwc", "pwl"):
+            e = sum(Fr(float(ctx.call("pair_value_interval", fn["dist"], sts[x], sts[y],
+                                      interval=ivt, **pkw))) for (x, y) in pairs) / npairs
+            ctx.check(ps.close(Vi, e, max(tol, 1e-9)), "mean_of_pair_distances_interval",
+                      lambda: "%s multivariate distance over %r: %r, mean of pair distances %r"
+                      % (meas, iv, float(Vi), float(e)))
+        else:
+            ty = tmp = Fr(0)
+            for p_ in pprof.values():
+                a_, b_ = p_.integral(M.intervals_list(iv))
+                ty += a_
+                tmp += b_
+            e = ty / tmp if tmp > 0 else Fr(1)
+            ctx.check(ps.close(Vi, e, tol), "total_ratio_interval",
+                      lambda: "multivariate spike_sync over %r: %r, total coincidences / "
+                              "multiplicity of the pair profiles inside it: %r"
+                      % (iv, float(Vi), float(e)))
 
     # matrices ('auto' with `indices` is not asserted: pooling is unspecified)
     for ind in ((None,) if auto else (None, case["indices"])):
